@@ -9,6 +9,7 @@ Scenario (dict):
              item: ("text", str) ("binary", bytes) ("frag", op, [parts]) ("ping", b) ("pong", b)
                    ("close", status|None, reason) ("eof",) ("reset",) ("bad",) ("badutf8",) ("burst", [items])
                    ("partial", bytes)   raw bytes that do not complete a frame
+                   ("split", item, k, gap_ms)  the item's frame in two pieces, gap_ms apart
   run        kwargs of run_forever: ping_interval, ping_timeout, ping_payload, reconnect, dispatcher ("ext"), skip_utf8
   callbacks  list of names that are set (default all of open message data error close ping pong)
   actions    {callback name: [action per invocation]}  action: "raise" | "close" | "kbint" | None
@@ -172,6 +173,14 @@ class AppNet:
                             self.sched.at(t, lambda s=sock: self.deliver(s, "eof", None))
                         elif item[0] == "reset":
                             self.sched.at(t, lambda s=sock: self.deliver(s, "reset", None))
+                        elif item[0] == "split":
+                            # ("split", item, k, gap_ms): the first k bytes of the item's (single) frame now, the rest gap_ms
+                            # later - a frame that arrives slowly; the message counts as sent when it is complete
+                            (b, a), = sframe_items(item[1])
+                            k, gap = int(item[2]), item[3] / 1000.0
+                            self.sched.at(t, lambda s=sock, b=b[:k]: self.deliver(s, b, None))
+                            t += gap
+                            self.sched.at(t, lambda s=sock, b=b[k:], a=a: self.deliver(s, b, a))
                         elif item[0] == "burst":
                             chunks = []
                             for it in item[1]:
